@@ -214,4 +214,12 @@ var properties = map[string]propSpec{
 		Stub:        []string{"simulated user (plain os calls, stamped mtimes)", "independent walker", "syscall hook (gates, errno injection)", "fake clock", "model alpha endpoint in the links-mixed scenario"},
 		Probes:      []string{"probe.links_accepted_by_scan", "probe.links_created_by_transition"},
 	},
+	"C17": {
+		Engine: "syncsim", Level: "exploration", QuickSec: 40, ThoroughSec: 900,
+		Rule: "one run = a real session over two real local endpoints; besides ordinary edits the user replaces directories and files on planned paths by symbolic links to a canary directory outside both roots (whose entries mirror the in-root names) - at endpoint-method gates and, in most runs, between any two system calls of scan, stage, supply, receive and transition; oracles: before every hooked system call the directory descriptor is resolved through /proc/self/fd and must not lie in the canary; a rename must not leave a root; the canary tree (names, modes, sizes, bytes) is unchanged after every scan, supply and transition; non-trivial and distinct as C08",
+		Assumptions: append([]string{"reads through a followed link are detected by resolving the descriptor of every hooked read/fstat/openat/readdir, not by inotify"}, commonAssumptions...),
+		Real:        []string{"synchronization.Manager and controller", "local endpoint (scan, poll watching, staging, transition, cache)", "core.Scan / core.Transition", "rsync transmit/receive", "filesystem.Directory / Opener on tmpfs (/dev/shm)", "staging store"},
+		Stub:        []string{"simulated user (plain os calls)", "canary directory outside both roots", "syscall hook (gates, path resolution through /proc/self/fd)", "fake clock"},
+		Probes:      []string{"probe.user_edits", "probe.fs_ops.transition", "probe.fs_ops.scan", "probe.fs_ops.supply", "probe.disk_transitions"},
+	},
 }
